@@ -971,6 +971,14 @@ void op_thread_batch(World& W)
   long big = param_int(g_params, "big_batches", 0);
   int k = sizes[c.pick(big ? 18 : 15)];
   if (c.pick(3) != 0 && k > 12) k = 1 + static_cast<int>(c.pick(12)); // large batches are expensive: a third of the draws
+  // parameter huge_batches=1 (a thorough-tier job): once per case a batch around the 16-bit boundary of a reclamation counter
+  static bool huge_done = false; // one forked child per case
+  if (param_int(g_params, "huge_batches", 0) && !huge_done && c.pick(3) == 0)
+  {
+    huge_done = true;
+    k = 65535 + static_cast<int>(c.pick(3));
+    W.r->label("batch_ge_65535");
+  }
   if (g_excl_f9 && W.exited_since_idle + k >= 256)
   {
     W.r->count("excluded.sim.invalid_context_counter_wraps_at_256");
